@@ -586,3 +586,42 @@ PROPS["C12"] = {
         {"name": "rapid", "mode": "rapid", "run": "TestC12Rapid", "race": True, "checks": {"quick": 480, "thorough": 9600}, "timeout": {"quick": 400, "thorough": 3600}},
     ],
 }
+
+PROPS["C08"] = {
+    "level": "exploration",
+    "rule": ("rapid unit: byte strings used as the content of a .json or .yaml Spec file: random bytes, random text, soups of 70 YAML/JSON/CDI "
+             "tokens (anchors, aliases, merge keys, tags, huge numbers, truncated UTF-8, BOM, NUL, document markers, CDI field names with "
+             "null entries), nestings of depth 10..20000, alias-expansion bombs, and structure-aware mutants of generated valid documents "
+             "(0..4 tree mutations: any node replaced by another JSON type / null / wrapped; 0..5 text mutations: token insertion, range "
+             "deletion, truncation, duplication, byte overwrite), capped at 64 KiB. Every input goes through ParseSpec, ReadSpec, a cache "
+             "refresh over a directory holding it next to a known-good file (the malformed file must get an error entry, the good file's "
+             "device must still resolve), GetErrors / GetSpecErrors / listings, and - if it loads - injection of each device and of all "
+             "devices into four OCI specs with nil and populated sections plus the nil spec, Device/Spec.ApplyEdits, "
+             "schema.ValidateData / ValidateReader / ReadAndValidate / ValidateFile / Validate / ValidateType, MinimumRequiredVersion, and "
+             "a write-back with the builtin schema installed. strings unit: byte strings, near-miss names and hostile strings through all "
+             "pkg/parser functions, ValidateEnv, ParseAnnotations, AnnotationKey, AnnotationValue, UpdateAnnotations, InjectDevices, "
+             "GetDevice. watcher unit: each input is dropped (rename) into a directory watched by a live auto-refresh cache, followed by a "
+             "known-good file with a fresh device name, which must resolve within 10 s (the goroutine survived). Oracle: no panic (recovered "
+             "per entry point; a panic in the watcher goroutine kills the process and is attributed through the saved current input), "
+             "every entry point returns within a 20 s watchdog (re-run once alone before calling it a hang), malformed input yields an "
+             "error. Global state (Spec validator, current schema) is reset at the top of every case. Thorough tier adds native fuzzing "
+             "of the same two oracles. Non-trivial iff the input passes tokenisation (it reaches unmarshalling or validation); distinct = "
+             "distinct (content, extension)."),
+    "assumptions": ["'hang' = no return within 20 s on inputs <= 64 KiB", "host device nodes named by fuzzed Specs are looked up on the real host; only crashes and hangs are judged there"],
+    "manifest": {
+        "text": ("Robustness fuzzing of every entry point that consumes untrusted data with generated, structure-aware and dictionary-driven "
+                 "inputs, including a live watcher goroutine; crash/hang oracle plus 'malformed file is reported and isolated'. Sampling; "
+                 "never establishes absence of crashing inputs."),
+        "note": "trusted: panics are observable (recover per entry point; process death for the goroutine); watchdog bound",
+        "technique": "property-based testing and fuzzing: rapid generators with structure-aware mutation, native go fuzzing (thorough), crash / hang / error-isolation oracle",
+    },
+    "health": {"quick": {"tokenises": 5000, "tokenises-but-invalid": 3000, "loads": 1000, "injects": 1000, "doc:deep-nesting": 500, "doc:alias-bomb": 300, "doc:token-soup": 500, "doc:text-mutated": 2000}},
+    "units": [
+        {"name": "regress", "mode": "plain", "run": "TestC08Regress"},
+        {"name": "rapid", "mode": "rapid", "run": "TestC08Rapid", "checks": {"quick": 48000, "thorough": 960000}},
+        {"name": "strings", "mode": "rapid", "run": "TestC08Strings", "checks": {"quick": 160000, "thorough": 3200000}},
+        {"name": "watcher", "mode": "rapid", "run": "TestC08Watcher", "shards": 8, "checks": {"quick": 4000, "thorough": 80000}},
+        {"name": "fuzz-spec", "mode": "fuzz", "run": "FuzzC08Spec", "tiers": ["thorough"], "fuzztime": 120, "timeout": 900},
+        {"name": "fuzz-strings", "mode": "fuzz", "run": "FuzzC08Strings", "tiers": ["thorough"], "fuzztime": 60, "timeout": 600},
+    ],
+}
